@@ -126,6 +126,16 @@ def expected(ins, ctx):
         if a is None or b is None:
             return None, 'operand line not implemented'
         return (minof([a, b]) if k == 'smaller' else maxof([a, b])), None
+    if k == 'ratio':
+        a, b = ctx.line_atom(ins.a), ctx.line_atom(ins.b)
+        if a is None or b is None:
+            return None, 'operand line not implemented'
+        return minof([Lin(1), Lin(0, {('div', (a.freeze(), b.freeze())): 1})]), None
+    if k == 'nextmult':
+        a, b = ctx.line_atom(ins.a), ctx.line_atom(ins.b)
+        if a is None or b is None or a.single_atom() is None or b.single_atom() is None:
+            return None, 'operand line not implemented'
+        return ('nextmult', a.single_atom()[1], b.single_atom()[1], float(ins.step)), None
     if k == 'copy':
         a = ctx.line_atom(ins.a)
         return (a, None) if a is not None else (None, 'operand line not implemented')
@@ -187,6 +197,36 @@ def compare(d, ins, exp, zero, alts=(), floor_ops=None):
     if n_val == 0:
         bad.append('no path of the definition produces a value')
     return bad
+
+
+def compare_nextmult(d, exp):
+    """a - b rounded up to the next multiple of the step, 0 when not positive.  The instruction and any definition
+    built from the difference with floor / ceil / floor-division / comparisons are step functions of a - b whose
+    breakpoints are multiples of the step (or the cent tolerance around zero): agreement at, just below and just
+    above each multiple over a window decides equality in that class.  -> (mismatches, undecided reason)"""
+    import math
+    from ..termeval import value_at
+    _k, a_atom, b_atom, step = exp
+    base = 200000.0
+    pts = set()
+    for k in range(-2, 5):
+        for dlt in (-step / 2, -1.0, -0.01, 0.0, 0.01, 1.0, 25.0):
+            pts.add(round(k * step + dlt, 2))
+    pts |= {123 * step, 123 * step + 0.01, 123 * step - 0.01}
+    bad = []
+    for r in sorted(pts):
+        env = {a_atom: base + r, b_atom: base}
+        want = 0.0 if r <= 0 else math.ceil(round(r / step, 9)) * step
+        kind, got = value_at(d, env)
+        if kind == 'undecided':
+            return [], f'definition cannot be evaluated at line difference {r}: {got}'
+        if kind == 'raise':
+            bad.append(f'produces no value when the difference is {r:g}')
+        elif abs(float(got) - want) > 1e-6:
+            bad.append(f'gives {float(got):g} when the difference is {r:g}; the instruction gives {want:g}')
+        if len(bad) >= 3:
+            break
+    return bad, None
 
 
 def check(tree, rep, tier='quick', seed=0):
@@ -263,7 +303,14 @@ def check(tree, rep, tier='quick', seed=0):
                     if ex['form'] == fr.form_name and ex['line'] == line and (not ex.get('years') or y in ex['years']):
                         alts.append(ex['alt'].replace('{form}', fr.name))
                 floor_ops = (ctx.line_atom(ins.a), ctx.line_atom(ins.b)) if ins.kind == 'subfloor' else None
-                bad = compare(d, ins, exp, zero, alts, floor_ops)
+                if ins.kind == 'nextmult':
+                    bad, und = compare_nextmult(d, exp)
+                    if und:
+                        n_armed -= 1
+                        rep.undecide(f'{key}: "{text[:60]}" not decided: {und}')
+                        continue
+                else:
+                    bad = compare(d, ins, exp, zero, alts, floor_ops)
                 if ins.kind == 'condsub' and not bad:
                     a, b = ctx.line_atom(ins.a), ctx.line_atom(ins.b)
                     for p in d.paths:
